@@ -43,6 +43,9 @@ CHECKS = {
  "C13": ("icontract post-conditions on Treatment / Sum .code_with_intercept / .code_without_intercept (shape, rank with the constant, indicator / zero-sum structure, reference row zero / omitted level -1, labels) that fire on every contrast matrix any workload or repository test produces; an exhaustive driver over level counts 1..12 x every reference / omitted level x string / integer / falsy levels x fresh and re-used encoding objects; boundary checks through design_matrices that C / T / S honour contrast, reference / omit and every permutation of up to 5 levels passed as levels=; relational coding-swap check (column space unchanged) on complete-factorial frames.",
          "Exact 0/1/-1 matrices, so rank and equality are decided exactly; the swap check uses projection residuals (1e-7).",
          "icontract post-conditions on the real encoding methods + exhaustive configuration driver + relational shadow executions"),
+ "C14": ("Intrinsic and trace contracts attached to the __call__ of the Center, Scale, BSpline and Polynomial classes (they fire on direct calls, through design_matrices and while the repository's tests run): mean zero / unit population sd on the first call, the same affine map on every later call (slope and offset recovered from the first call's input and output), spline column count, non-negativity and partition of unity inside the boundary knots, orthonormality / orthogonality to the constant / span of 1..x^d for poly, exact powers for raw=True; a driver over seeded vectors (ties, large offsets, small n, exactly zero mean, integers) x parameter combinations x several later inputs x several instances per process, and a list of invalid parameter combinations that must be refused.",
+         "Numerical tolerances as stated in the evidence; spline contracts skip degenerate knot sequences (coinciding percentiles) and x outside the boundary knots.",
+         "intrinsic + trace runtime contracts on the real transform classes (mathematical identities as oracle)"),
 }
 NOT_APPLICABLE = {}
 PENDING = [f"C{i:02d}" for i in range(1, 18) if f"C{i:02d}" not in CHECKS]
